@@ -144,6 +144,7 @@ func TestVerif_C03_Access(t *testing.T) {
 			}
 			return authr().DocIDForRole(real(m))
 		}
+		exists := map[string]bool{} // live principals according to the inputs
 		docs := map[string]*vC03Doc{}
 		for _, d := range vC03Docs {
 			docs[d] = &vC03Doc{}
@@ -222,6 +223,7 @@ func TestVerif_C03_Access(t *testing.T) {
 				cache[p] = ent
 			}
 			win, dacc := vObj{}, vObj{}
+			foreign := 0
 			for _, d := range vC03Docs {
 				acc, racc := vObj{}, vObj{}
 				for _, p := range append(append([]string{}, vC03Users...), vC03Roles...) {
@@ -244,17 +246,22 @@ func TestVerif_C03_Access(t *testing.T) {
 					for _, p := range append(append([]string{}, vC03Users...), vC03Roles...) {
 						known[accessName(p)] = p
 					}
+					// A stored map that is merely WRONG (grantee that nobody granted, role names where channels belong, ...)
+					// is recorded as far as the spec's variables can hold it and left to TLC to judge; "foreign" counts
+					// the entries that have no place in the projection.
 					for name, ts := range sd.Access {
 						p, ok := known[name]
 						if !ok {
-							fatal(bi, si, "unexpected grantee in access map", fmt.Errorf("%s", name))
+							foreign++
+							continue
 						}
 						acc[p] = vC03Sorted(ts.AllKeys())
 					}
 					for name, ts := range sd.RoleAccess {
 						p, ok := known[name]
 						if !ok || !isUser(p) {
-							fatal(bi, si, "unexpected grantee in role_access map", fmt.Errorf("%s", name))
+							foreign++
+							continue
 						}
 						names := []string{}
 						for _, k := range ts.AllKeys() {
@@ -266,7 +273,7 @@ func TestVerif_C03_Access(t *testing.T) {
 				win[d] = w
 				dacc[d] = vObj{"acc": acc, "racc": racc}
 			}
-			return vObj{"cache": cache, "win": win, "dacc": dacc}
+			return vObj{"cache": cache, "win": win, "dacc": dacc, "foreign": foreign}
 		}
 		emit := func(bi, si int, o vObj) {
 			for k, v := range state(bi, si) {
@@ -344,7 +351,14 @@ func TestVerif_C03_Access(t *testing.T) {
 			case "AdminPut":
 				name := real(st.P)
 				pc := &auth.PrincipalConfig{Name: &name}
-				if isDefault {
+				// "no admin channels" for a principal that does not exist (never created, deleted, or a role marked
+				// deleted) is mostly sent the way an administrator would: with the channel list omitted. For an existing
+				// principal an omitted list would mean "unchanged", so there the empty list is always explicit.
+				omit := len(st.Cs) == 0 && !exists[st.P] && rnd.Intn(4) != 0
+				exists[st.P] = true
+				if omit {
+					// nothing
+				} else if isDefault {
 					pc.ExplicitChannels = base.SetFromArray(st.Cs)
 				} else {
 					pc.SetExplicitChannels(scope, coll, st.Cs...)
@@ -363,15 +377,18 @@ func TestVerif_C03_Access(t *testing.T) {
 			case "AdminDelete":
 				if isUser(st.P) {
 					usr, err := authr().GetUser(real(st.P))
-					if err != nil || usr == nil {
-						fatal(bi, si, "GetUser before delete", fmt.Errorf("%v %v", usr, err))
+					if err != nil {
+						fatal(bi, si, "GetUser before delete", err)
 					}
-					if err := authr().DeleteUser(usr); err != nil {
-						fatal(bi, si, "DeleteUser", err)
+					if usr != nil { // a user that should exist but does not is a wrong state, not a harness failure: recorded below
+						if err := authr().DeleteUser(usr); err != nil {
+							fatal(bi, si, "DeleteUser", err)
+						}
 					}
-				} else if err := db.DeleteRole(ctx, real(st.P), st.Purge); err != nil {
+				} else if err := db.DeleteRole(ctx, real(st.P), st.Purge); err != nil && !base.IsDocNotFoundError(err) {
 					fatal(bi, si, "DeleteRole", err)
 				}
+				exists[st.P] = false
 				emit(bi, si, vObj{"a": "AdminDelete", "p": st.P, "purge": st.Purge})
 			case "DocWrite":
 				// Where two md5 digests of one generation tie, the real winner may differ from the one TLC chose when it
